@@ -1075,3 +1075,215 @@ VARIANTS += [
  _vh('worker-verify-only-other-blob', 'flagged(callback/verify-fetched-blob)',
      ('verifyBlob(sigManifestDesc, sigBlob)', 'verifyBlob(sigManifestDesc, sigBlob[:len(sigBlob)/2])')),
 ]
+
+# ---------------------------------------------------------------------------------------------------------------
+# third pass — the class "bound by construction": no per-iteration test of the counter; before the loop the page is cut
+# to the attempts that are left (if/else, a counted prefix, builtin min, a clipping helper, an index loop up to that
+# minimum; counter counting up or down; state in captured locals or in a state object), and the loop runs over what
+# remains. Broken counterparts: the cut is off by one, uses another limit, is skipped on some path, is computed where it
+# goes stale, the loop runs over something else or more than once.
+
+_BG_HEAD = '''		// process signatures
+		for _, sigManifestDesc := range signatureManifests {
+			if numOfSignatureProcessed >= verifyOpts.MaxSignatureAttempts {
+				break
+			}
+			numOfSignatureProcessed++
+'''
+_BG_LEFT = 'verifyOpts.MaxSignatureAttempts - numOfSignatureProcessed'
+_BG_CUT = '''		// process signatures
+		if remaining := verifyOpts.MaxSignatureAttempts - numOfSignatureProcessed; len(signatureManifests) > remaining {
+			signatureManifests = signatureManifests[:remaining]
+		}
+		for _, sigManifestDesc := range signatureManifests {
+			numOfSignatureProcessed++
+'''
+
+def _bg(name, expect, new_head, *more, **kw):
+    d = dict(name=name, file=N, expect=expect, edits=[(N, _BG_HEAD, new_head)] + [(N, a, b) for (a, b) in more])
+    d.update(kw)
+    return d
+
+_BG_CLIP = '''func firstListed(page []ocispec.Descriptor, n int) []ocispec.Descriptor {
+	if len(page) > n {
+		return page[:n]
+	}
+	return page
+}
+
+'''
+_BG_CLIP_HEAD = '''		// process signatures
+		for _, sigManifestDesc := range firstListed(signatureManifests, verifyOpts.MaxSignatureAttempts-numOfSignatureProcessed) {
+			numOfSignatureProcessed++
+'''
+_BG_DOWN = [
+    ('\tnumOfSignatureProcessed := 0\n', '\tattemptsLeft := verifyOpts.MaxSignatureAttempts\n'),
+    ('\t\tif numOfSignatureProcessed >= verifyOpts.MaxSignatureAttempts {\n\t\t\treturn errExceededMaxVerificationLimit\n', '\t\tif attemptsLeft == 0 {\n\t\t\treturn errExceededMaxVerificationLimit\n'),
+    ('\tif numOfSignatureProcessed == 0 {\n', '\tif attemptsLeft == verifyOpts.MaxSignatureAttempts {\n'),
+]
+_WM_LOOP = '''	for _, sigManifestDesc := range signatureManifests {
+		if a.processed >= a.maxAttempts {
+			break
+		}
+		a.processed++
+'''
+
+VARIANTS += [
+ _bg('shape-budget-truncate', 'silent', _BG_CUT,
+     why='the page is cut to limit - counter before the loop (guarded by len(page) > remaining); no per-iteration test, no break'),
+ _bg('shape-budget-truncate-else', 'silent', '''		// process signatures
+		var batch []ocispec.Descriptor
+		if left := verifyOpts.MaxSignatureAttempts - numOfSignatureProcessed; left >= len(signatureManifests) {
+			batch = signatureManifests
+		} else {
+			batch = signatureManifests[:left]
+		}
+		for _, sigManifestDesc := range batch {
+			numOfSignatureProcessed++
+''', why='the same as an if/else into another variable, the comparison spelled from the budget side'),
+ _bg('shape-budget-count-var', 'silent', '''		// process signatures
+		n := len(signatureManifests)
+		if left := verifyOpts.MaxSignatureAttempts - numOfSignatureProcessed; n > left {
+			n = left
+		}
+		for _, sigManifestDesc := range signatureManifests[:n] {
+			numOfSignatureProcessed++
+''', why='the number of manifests to look at is computed first (min by hand), then a prefix of that length is ranged over'),
+ _bg('shape-budget-min-builtin', 'silent', '''		// process signatures
+		for _, sigManifestDesc := range signatureManifests[:min(len(signatureManifests), verifyOpts.MaxSignatureAttempts-numOfSignatureProcessed)] {
+			numOfSignatureProcessed++
+''', why='builtin min'),
+ _bg('shape-budget-index-loop', 'silent', '''		// process signatures
+		n := min(verifyOpts.MaxSignatureAttempts-numOfSignatureProcessed, len(signatureManifests))
+		for i := 0; i < n; i++ {
+			sigManifestDesc := signatureManifests[i]
+			numOfSignatureProcessed++
+''', why='index loop up to the minimum instead of a range over a prefix'),
+ _bg('shape-budget-index-loop-len', 'silent', _BG_CUT.replace('\t\tfor _, sigManifestDesc := range signatureManifests {\n', '\t\tfor i := 0; i < len(signatureManifests); i++ {\n\t\t\tsigManifestDesc := signatureManifests[i]\n'),
+     why='cut page, index loop up to its length'),
+ _bg('shape-budget-clip-helper', 'silent', _BG_CLIP_HEAD, ('func generateAnnotations(', _BG_CLIP + 'func generateAnnotations('),
+     why='the cut is a module helper firstListed(page, n) called with limit - counter'),
+ _bg('shape-budget-countdown', 'silent', '''		// process signatures
+		if len(signatureManifests) > attemptsLeft {
+			signatureManifests = signatureManifests[:attemptsLeft]
+		}
+		for _, sigManifestDesc := range signatureManifests {
+			attemptsLeft--
+''', *_BG_DOWN, why='counter counting down from the limit: the budget is the counter itself'),
+ _wm('shape-budget-state-object-worker', 'silent',
+     (_WM_LOOP, '''	if left := a.maxAttempts - a.processed; left < len(signatureManifests) {
+		signatureManifests = signatureManifests[:left]
+	}
+	for _, sigManifestDesc := range signatureManifests {
+		a.processed++
+'''), why='state object, page worker method and per-signature worker method; the page worker cuts the page'),
+ _si('shape-budget-state-struct-inline', 'silent',
+     ('\t\tfor _, sigManifestDesc := range signatureManifests {\n\t\t\tif st.done >= verifyOpts.MaxSignatureAttempts {\n\t\t\t\tbreak\n\t\t\t}\n\t\t\tst.done++\n',
+      '\t\tif room := verifyOpts.MaxSignatureAttempts - st.done; len(signatureManifests) >= room {\n\t\t\tsignatureManifests = signatureManifests[:room]\n\t\t}\n\t\tfor _, sigManifestDesc := range signatureManifests {\n\t\t\tst.done++\n'),
+     why='books in a captured struct; cut under len(page) >= room'),
+ _bg('shape-index-loop-length-local', 'silent', '''		// process signatures
+		n := len(signatureManifests)
+		for i := 0; i < n; i++ {
+			sigManifestDesc := signatureManifests[i]
+			if numOfSignatureProcessed >= verifyOpts.MaxSignatureAttempts {
+				break
+			}
+			numOfSignatureProcessed++
+''', why='per-iteration test kept; index loop whose bound is the page length held in a local'),
+ _bg('shape-budget-index-guard', 'silent', '''		// process signatures
+		remaining := verifyOpts.MaxSignatureAttempts - numOfSignatureProcessed
+		for i, sigManifestDesc := range signatureManifests {
+			if i >= remaining {
+				break
+			}
+			numOfSignatureProcessed++
+''', why='the per-iteration test compares the position in the page with the attempts left when the page arrived'),
+ _bg('shape-budget-index-guard-for', 'silent', '''		// process signatures
+		remaining := verifyOpts.MaxSignatureAttempts - numOfSignatureProcessed
+		for i := 0; i < len(signatureManifests) && i < remaining; i++ {
+			sigManifestDesc := signatureManifests[i]
+			numOfSignatureProcessed++
+''', why='the same in the loop condition'),
+ _bg('budget-index-guard-one-more', 'flagged(bound/guard)', '''		// process signatures
+		remaining := verifyOpts.MaxSignatureAttempts - numOfSignatureProcessed
+		for i, sigManifestDesc := range signatureManifests {
+			if i > remaining {
+				break
+			}
+			numOfSignatureProcessed++
+'''),
+ _bg('budget-index-guard-other-index', 'flagged(bound/guard)', '''		// process signatures
+		remaining := verifyOpts.MaxSignatureAttempts - numOfSignatureProcessed
+		for i, sigManifestDesc := range signatureManifests {
+			if i/2 >= remaining {
+				break
+			}
+			numOfSignatureProcessed++
+'''),
+ # broken
+ _bg('budget-one-more', 'flagged(bound/guard)', _BG_CUT.replace('len(signatureManifests) > remaining {\n\t\t\tsignatureManifests = signatureManifests[:remaining]', 'len(signatureManifests) > remaining+1 {\n\t\t\tsignatureManifests = signatureManifests[:remaining+1]')),
+ _bg('budget-one-less', 'flagged(bound/guard)', _BG_CUT.replace('signatureManifests = signatureManifests[:remaining]', 'signatureManifests = signatureManifests[:remaining-1]')),
+ _bg('budget-other-limit', 'flagged(bound/guard)', _BG_CUT.replace('remaining := verifyOpts.MaxSignatureAttempts - numOfSignatureProcessed', 'remaining := 2*verifyOpts.MaxSignatureAttempts - numOfSignatureProcessed')),
+ _bg('budget-ignores-counter', 'flagged(bound/guard)', _BG_CUT.replace('remaining := verifyOpts.MaxSignatureAttempts - numOfSignatureProcessed', 'remaining := verifyOpts.MaxSignatureAttempts')),
+ _bg('budget-stale', 'flagged(bound/guard)', _BG_CUT.replace('if remaining := verifyOpts.MaxSignatureAttempts - numOfSignatureProcessed; len', 'if len'),
+     (_LIST, '\tremaining := verifyOpts.MaxSignatureAttempts - numOfSignatureProcessed\n' + _LIST)),
+ _bg('budget-guard-reversed', 'flagged(bound/guard)', _BG_CUT.replace('len(signatureManifests) > remaining', 'len(signatureManifests) < remaining')),
+ _bg('budget-cut-skipped-on-a-path', 'flagged(bound/guard)', _BG_CUT.replace('len(signatureManifests) > remaining {', 'len(signatureManifests) > remaining && remaining > 1 {')),
+ _bg('budget-ranges-uncut-page', 'flagged(bound/guard)', '''		// process signatures
+		batch := signatureManifests
+		if remaining := verifyOpts.MaxSignatureAttempts - numOfSignatureProcessed; len(batch) > remaining {
+			batch = batch[:remaining]
+		}
+		logger.Debugf("%d signatures to look at", len(batch))
+		for _, sigManifestDesc := range signatureManifests {
+			numOfSignatureProcessed++
+'''),
+ _bg('budget-skips-first', 'flagged(bound/guard)', _BG_CUT.replace('signatureManifests = signatureManifests[:remaining]', 'signatureManifests = signatureManifests[1:remaining]')),
+ _bg('budget-loop-twice', 'flagged(bound/guard)', _BG_CUT.replace('\t\tfor _, sigManifestDesc := range signatureManifests {\n', '\t\tfor pass := 0; pass < 2; pass++ {\n\t\tfor _, sigManifestDesc := range signatureManifests {\n'),
+     ('\t\t}\n\t\tif numOfSignatureProcessed >= verifyOpts.MaxSignatureAttempts {\n\t\t\treturn errExceededMaxVerificationLimit\n', '\t\t}\n\t\t}\n\t\tif numOfSignatureProcessed >= verifyOpts.MaxSignatureAttempts {\n\t\t\treturn errExceededMaxVerificationLimit\n'),
+     why='the cut page is run over twice: the budget read before the outer loop is stale in the second pass'),
+ _bg('budget-min-ignores-counter', 'flagged(bound/guard)', '''		// process signatures
+		for _, sigManifestDesc := range signatureManifests[:min(len(signatureManifests), verifyOpts.MaxSignatureAttempts)] {
+			numOfSignatureProcessed++
+'''),
+ _bg('budget-index-loop-from-one', 'flagged(callback/loop)', '''		// process signatures
+		n := min(verifyOpts.MaxSignatureAttempts-numOfSignatureProcessed, len(signatureManifests))
+		for i := 1; i < n; i++ {
+			sigManifestDesc := signatureManifests[i]
+			numOfSignatureProcessed++
+'''),
+ _bg('budget-index-loop-inclusive', 'flagged(callback/loop)', '''		// process signatures
+		n := min(verifyOpts.MaxSignatureAttempts-numOfSignatureProcessed, len(signatureManifests)-1)
+		for i := 0; i <= n; i++ {
+			sigManifestDesc := signatureManifests[i]
+			numOfSignatureProcessed++
+'''),
+ _bg('budget-clip-helper-one-more', 'flagged(bound/guard)', _BG_CLIP_HEAD, ('func generateAnnotations(', _BG_CLIP.replace('return page[:n]', 'return page[:n+1]') + 'func generateAnnotations(')),
+ _bg('budget-clip-helper-other-argument', 'flagged(bound/guard)', _BG_CLIP_HEAD.replace('verifyOpts.MaxSignatureAttempts-numOfSignatureProcessed', 'verifyOpts.MaxSignatureAttempts'), ('func generateAnnotations(', _BG_CLIP + 'func generateAnnotations(')),
+ _bg('budget-countdown-one-more', 'flagged(bound/guard)', '''		// process signatures
+		if len(signatureManifests) > attemptsLeft+1 {
+			signatureManifests = signatureManifests[:attemptsLeft+1]
+		}
+		for _, sigManifestDesc := range signatureManifests {
+			attemptsLeft--
+''', *_BG_DOWN),
+ _bg('budget-count-after-fetch', 'flagged(bound/counted)', _BG_CUT.replace('\t\t\tnumOfSignatureProcessed++\n', ''),
+     ('\t\t\t// using signature media type fetched from registry\n', '\t\t\tnumOfSignatureProcessed++\n\t\t\t// using signature media type fetched from registry\n')),
+ _bg('budget-counted-per-page', 'flagged(bound/)', _BG_CUT.replace('\t\tfor _, sigManifestDesc := range signatureManifests {\n\t\t\tnumOfSignatureProcessed++\n', '\t\tnumOfSignatureProcessed++\n\t\tfor _, sigManifestDesc := range signatureManifests {\n')),
+ _wm('budget-state-object-worker-limit-field-raised', 'flagged(bound/guard)',
+     (_WM_LOOP, '''	if left := a.maxAttempts - a.processed; left < len(signatureManifests) {
+		signatureManifests = signatureManifests[:left]
+	}
+	for _, sigManifestDesc := range signatureManifests {
+		a.processed++
+'''), ('\t\tmaxAttempts:        verifyOpts.MaxSignatureAttempts,\n', '\t\tmaxAttempts:        verifyOpts.MaxSignatureAttempts + len(artifactRef),\n')),
+ _bg('index-loop-bound-short', 'flagged(bound/guard)', '''		// process signatures
+		n := len(signatureManifests) - 1
+		for i := 0; i < n; i++ {
+			sigManifestDesc := signatureManifests[i]
+			if numOfSignatureProcessed >= verifyOpts.MaxSignatureAttempts {
+				break
+			}
+			numOfSignatureProcessed++
+''', why='per-iteration test kept, but the index loop leaves out the last listed manifest of every page'),
+]
